@@ -27,16 +27,16 @@ LEVEL_TEXT = 'Every operation sequence up to the depth bound (with state de-dupl
 LEVEL_NOTE = 'canon merges states with identical Nthermo, NGFmax, cache contents (bytes), last-result bytes and aliasing pattern: Lij reads nothing else that is mutable.'
 
 OPS = ['L:a', 'L:b', 'L:c', 'scribble', 'clear', 'gf:same', 'gf:other', 'regen:1', 'regen:2', 'saveload']
-CONFIGS = {'FCC': ('FCC', 0), 'HCP': ('HCP', 0), 'SQUARE': ('SQUARE', 0), 'ROMEGA': ('ROMEGA', 0)}
+CONFIGS = {'FCC': ('FCC', 0), 'HONEY2': ('HONEY', 1), 'HCP': ('HCP', 0), 'SQUARE': ('SQUARE', 0), 'ROMEGA': ('ROMEGA', 0)}
 
 
 def BOUNDS(tier):
-    return {'crystals': ['FCC', 'SQUARE'] if tier == 'quick' else list(CONFIGS), 'depth': 3 if tier == 'quick' else 5, 'ops': OPS,
+    return {'crystals': ['FCC', 'HONEY2 (honeycomb, 2 jump types)'] if tier == 'quick' else list(CONFIGS), 'depth': 3 if tier == 'quick' else 5, 'ops': OPS,
             'inputs': 'a = base G1, b = G1 with one solute-vacancy class shifted by +ln3 (same vacancy data), c = base G2', 'NGFmax': [4, 6]}
 
 
 def cases(tier):
-    names = ['FCC', 'SQUARE'] if tier == 'quick' else list(CONFIGS)
+    names = ['FCC', 'HONEY2'] if tier == 'quick' else list(CONFIGS)   # HONEY2: two jump types (the GF pole cutoff depends on the input)
     depth = 3 if tier == 'quick' else 5
     # the BFS of one crystal is split by its first operation to use the pool
     return [{'key': '{}/first={}'.format(n, op), 'config': n, 'first': op, 'depth': depth, 'cost': 3 if op.startswith('regen') else 1} for n in names for op in OPS]
